@@ -15,7 +15,9 @@ LEVEL_TEXT = ("Every sequence of host packets (tokens, data packets incl. corrup
 S1 = U.setup_bytes(0x80, 0x06, 0x0100, 0x0000, 0x0012)      # distinct bytes in every field
 S2 = U.setup_bytes(0x21, 0x22, 0x5AA5, 0x1234, 0xFEDC)
 S3 = (0x01, 0x02, 0x04, 0x08, 0x10, 0x20, 0x40, 0x80)
-PAYLOADS = {"S1": S1, "S2": S2, "S3": S3, "len7": S1[:7], "len9": S1 + (0x55,), "len0": ()}
+PAYLOADS = {"S1": S1, "S2": S2, "S3": S3, "len7": S1[:7], "len9": S1 + (0x55,), "len0": (),
+            # CRC-valid payloads whose length is 8 modulo 16 (a position counter that wraps would take them for 8 bytes)
+            "len24": S2 + S1 + S3, "len40": S3 + S1 + S2 + S1 + S3}
 
 
 def configs(tier):
@@ -37,7 +39,7 @@ class SetupSpec(Spec):
         toks = [("tok", U.SETUP, 0, 0), ("tok", U.SETUP, 0, 1), ("tok", U.SETUP, 5, 0), ("tok", U.IN, 0, 0), ("tok", U.OUT, 0, 0),
                 ("sof", 0x2A5), ("hs", U.ACK),
                 ("tokcut", U.SETUP, 0, 0, 2), ("tokcut", U.OUT, 0, 0, 1), ("toklong", U.SETUP, 0, 0)]
-        data = [("data", U.DATA0, p, "ok") for p in ("S1", "S2", "S3", "len7", "len9", "len0")]
+        data = [("data", U.DATA0, p, "ok") for p in ("S1", "S2", "S3", "len7", "len9", "len0", "len24", "len40")]
         data += [("data", U.DATA0, "S1", "badcrc"), ("data", U.DATA0, "S2", "abort4"), ("data", U.DATA0, "S1", "abort0"),
                  ("data", U.DATA1, "S3", "ok"),
                  # an over-long packet whose first ten bytes are a valid setup payload + its CRC16, followed by more bytes
